@@ -8,6 +8,7 @@ import io
 import json
 import logging
 import os
+import re
 import sys
 import traceback
 
@@ -279,7 +280,9 @@ def main():
             stdin_buffer = sys.stdin.buffer  # pylint: disable=no-member,useless-suppression
             stdin_text = io.TextIOWrapper(stdin_buffer, encoding='utf-8').read()
 
-            parts = stdin_text.split('namespace')
+            # A new spec starts at each namespace declaration, i.e. at the
+            # keyword at the start of a line (not wherever the word occurs).
+            parts = re.split(r'(?m)^namespace\b', stdin_text)
             if len(parts) == 1:
                 specs.append(('stdin.1', parts[0]))
             else:
